@@ -215,7 +215,9 @@ class NetGen:
                         vsl = sorted(r.sample(range(N), r.randint(2, 4)))
                     else:
                         vsl = sorted(r.sample(range(N), r.randint(1, N)))
-                    alpha = 0.0 if r.random() < 0.25 else distinct(0.0, 0.3)
+                    # non-compliance factor: zero, positive (drivers exceed the limit) or negative (enforced limits)
+                    ra = r.random()
+                    alpha = 0.0 if ra < 0.25 else (distinct(-0.2, -0.02) if ra < 0.45 else distinct(0.0, 0.3))
                 links.append(
                     {
                         "id": f"L{i}",
@@ -290,6 +292,22 @@ class NetGen:
                     )
                     di += 1
             if is_valid_desc(desc):
+                # a "textbook" network: whole-number parameters, written as Python ints (percentages as turn
+                # rates, 180 veh/km/lane, 2000 veh/h ...)
+                if r.random() < 0.12:
+                    desc["whole_numbers"] = True
+                    for l_ in desc["links"]:
+                        l_["lam"] = float(int(round(l_["lam"])) or 1)
+                        l_["L"] = 1.0 if r.random() < 0.7 else l_["L"]
+                        l_["rho_max"] = float(r.choice((160, 180, 200)))
+                        l_["rho_crit"] = float(r.choice((30, 33, 35)))
+                        l_["v_free"] = float(r.choice((100, 102, 120)))
+                        if r.random() < 0.4:
+                            l_["a"] = float(r.choice((2, 2, 3)))
+                        l_["beta"] = float(r.choice((10, 15, 25, 40, 60, 75)))
+                    for o_ in desc["origins"]:
+                        if o_.get("C") is not None:
+                            o_["C"] = float(r.choice((1500, 2000, 3000, 4000)))
                 # turn rates given as fractions copied from a table with five decimals: they add up to
                 # almost, not exactly, one
                 for n in nodes:
@@ -337,7 +355,7 @@ class NetGen:
             alpha = None
             if (u, w) in (("a", "b"), ("d", "e")) or r.random() < 0.2:
                 vsl = sorted(r.sample(range(N), r.randint(1, N)))
-                alpha = distinct(0.0, 0.3)
+                alpha = distinct(-0.2, -0.02) if r.random() < 0.25 else distinct(0.0, 0.3)
             links.append(
                 {
                     "id": f"L{i}", "name": f"L{i}", "up": u, "down": w, "N": N,
@@ -581,7 +599,7 @@ def all_valid_small(nmax, rng, kinds_full=True):
                     alpha = None
                     if rng.random() < 0.25:
                         vsl = sorted(rng.sample(range(N), rng.randint(0, N)))
-                        alpha = distinct(0.0, 0.3)
+                        alpha = distinct(-0.2, -0.02) if rng.random() < 0.25 else distinct(0.0, 0.3)
                     links.append({
                         "id": f"L{i}", "name": f"L{i}", "up": f"n{u}", "down": f"n{w}", "N": N,
                         "lam": rng.choice((1, 2, 3, 4)), "L": distinct(0.4, 1.6),
@@ -617,6 +635,10 @@ def add_user_kinds(desc, rng, p_origin=0.7, p_link=0.5):
             o["user_v"] = round(rng.uniform(15.0, 115.0), 2) if rng.random() < 0.7 else None
             if o["user_q"] is None and o["user_v"] is None:
                 o["user_v"] = 60.0
+            k += 1
+    for o in desc["origins"]:
+        if o["kind"] == "main" and rng.random() < p_origin:
+            o["user_cap_flow"] = round(rng.uniform(400.0, 4500.0), 1)
             k += 1
     for l in desc["links"]:
         if l.get("vsl") is None and rng.random() < p_link:
